@@ -40,6 +40,15 @@ CLAIMED = {
          "Trusted: go/ssa lowering, symgo, the regex VM and Replacer models (validated by native replay of witnesses), z3. "
          "Outside: indices >= 1000, nested fork ids in routing, file-name length limits, directory listing.",
          "DESIGN.md §4 C11"),
+ "C12": ("One-step induction on the real ResourceSemaphore and MaxJobsSemaphore code: the pre-state (capacities, reservation, a queue of "
+         "k<=3 (5) waiters with ghost channels; 3 jobs with arbitrary membership, metadata files and Limit) is symbolic subject to the "
+         "representation invariant, one operation with arbitrary arguments runs, and the solver shows invariant, FIFO prefix grants, exact "
+         "accounting, no lost wake-up and mutex discipline afterwards. Each operation is atomic under its mutex, so histories of any "
+         "length are covered for states within the bound. Bounded values (2^40) and queue length.",
+         "Trusted: go/ssa, symgo, ghost models of sync.Mutex/Cond/channels, cvc5 --solve-bv-as-int and z3. Caller contracts assumed "
+         "(amounts>=0, Release<=reserved, UpdateSize<=maxSize). Outside: clamping in GetSystemReqs (floating point), OS liveness, "
+         "remote manager goroutines.",
+         "DESIGN.md §4 C12"),
  "C18": ("Every byte string up to the stated length (quick 4, thorough 5 bytes; formatArgs 2+1+1 / 2+2+1) is pushed "
          "symbolically through the real appendShellSafeQuote/shellSafeQuote/formatArgs and a POSIX double-quote "
          "reference de-quoter; the solver shows on every path that sh recovers the original bytes, or returns the bytes "
